@@ -19,7 +19,9 @@ I2 == InsnLine("401001", <<"e8", "1a", "00", "00", "00">>, "call", <<Target("401
 I3 == InsnLine("401006", <<"48", "8b", "05", "f3", "2f", "00", "00">>, "mov", <<Mem("0x2ff3", "%rip", "", ""), Reg("%rax")>>)
 I4 == InsnLine("40100d", <<"c3">>, "ret", <<>>)
 I5 == InsnLine("40100e", <<"48", "c7", "84", "24", "a0", "00", "00">>, "movq", <<Imm("0x0"), Mem("0xa0", "%rsp", "", "")>>)
-Bases == { <<I1, I2, I4>>, <<I3, I4, I1>>, <<I5, I2>> }
+\* an indirect call through a %rip-relative slot, as objdump prints it with the slot's address in a # comment
+I6 == [InsnLine("401015", <<"ff", "15", "d5", "2f", "00", "00">>, "call", <<Mem("*0x2fd5", "%rip", "", "")>>) EXCEPT !.comment = "403ff0 <puts@GLIBC_2.2.5>"]
+Bases == { <<I1, I2, I4>>, <<I3, I4, I1>>, <<I5, I2>>, <<I6, I4>> }
 
 Positions == 1..(Len(listing) + 1)
 Lines == DOMAIN listing
